@@ -130,8 +130,16 @@ def is_leaf(d):
     return d[0] in ("v", "c")
 
 
+@p.expr_dataclass()
+class TaggedVar(p.Variable):
+    """a user subclass of Variable with an extra field: dispatches to map_variable through the class hierarchy"""
+    tag: str
+
+
 def build(d):
     if d[0] == "v":
+        if d[2] == "tnum":
+            return TaggedVar(d[1], "t")
         return p.Variable(d[1])
     if d[0] == "c":
         return d[1]
@@ -141,7 +149,7 @@ def build(d):
 
 def show(d):
     if d[0] == "v":
-        return d[1]
+        return d[1] + ("'" if d[2] == "tnum" else "")
     if d[0] == "c":
         return repr(d[1])
     return f"{d[0]}({', '.join(show(c) for c in d[1:])})"
